@@ -1,0 +1,5 @@
+//go:build !verif
+
+package bpool
+
+func verifPool(op string, obj interface{}) {}
